@@ -33,6 +33,7 @@ type frame struct {
 }
 
 type Exec struct {
+	lastObl *Obligation
 	eng       *Engine
 	vc        *VC
 	bv        bool
@@ -69,6 +70,7 @@ func (x *Exec) pos(n ast.Node) string {
 }
 
 func (x *Exec) oblige(st *State, kind, name string, cond *Term, n ast.Node) {
+	x.lastObl = nil
 	if x.dry > 0 {
 		return
 	}
@@ -94,7 +96,7 @@ func (x *Exec) oblige(st *State, kind, name string, cond *Term, n ast.Node) {
 	if cnt > 0 {
 		base = fmt.Sprintf("%s#%d", base, cnt+1)
 	}
-	x.vc.oblige(kind, base, goal, pos)
+	x.lastObl = x.vc.oblige(kind, base, goal, pos)
 }
 
 func (x *Exec) assume(st *State, t *Term) {
@@ -167,6 +169,14 @@ func (x *Exec) execStmt(s ast.Stmt, st *State) *State {
 				var v *Value
 				if i < len(vs.Values) {
 					v = x.coerce(x.eval(vs.Values[i], st), obj.Type())
+				} else if at, ok := types.Unalias(obj.Type()).Underlying().(*types.Array); ok && x.isStruct(at.Elem()) {
+					// local array of struct values: lives in memory (field-wise element maps), zeroed
+					ref := x.alloc(st)
+					x.fr().boxed[obj] = true
+					x.fr().boxRef[obj] = ref
+					st.setVar(obj, &Value{T: types.NewPointer(obj.Type()), P: &Pointer{Base: ref}})
+					x.zeroStructElems(st, ref, at.Elem(), nil, "")
+					continue
 				} else {
 					v = x.zero(obj.Type())
 				}
@@ -446,6 +456,9 @@ func (x *Exec) readVar(o types.Object, st *State) *Value {
 		panic(engErr("variable %s not in scope", o.Name()))
 	}
 	if x.fr().boxed[o] {
+		if at, ok := types.Unalias(o.Type()).Underlying().(*types.Array); ok && x.isStruct(at.Elem()) {
+			return v // array of struct values: used through its address (indexing, &a[i])
+		}
 		return x.load(st, v.P, o.Type())
 	}
 	return v
@@ -627,6 +640,9 @@ func (x *Exec) runLoop(spec *LoopSpec, ord int, label string, st *State, cond fu
 			if x.maxSym(w.ref) <= mark && !(Lt(w.ref, topAtEntry) == False) {
 				continue // loop-invariant reference: handled by the specific frame
 			}
+			if loopHavocKey(spec, w.key) {
+				continue // "loop N havoc <map>": the whole map is havocked, nothing is claimed about it
+			}
 			key := [2]*Term{w.ref, w.guard}
 			if seenW[key] {
 				continue
@@ -727,7 +743,7 @@ func (x *Exec) applyLoopHavoc(nh, pre *State, wl *WriteLog, top *Term, mark int,
 			if b, _, ok := splitOffset(w.ref); ok && b != nil && x.symMark[b] > mark && strings.HasPrefix(b.Name, "alloc!") {
 				continue
 			}
-			if spec != nil && spec.WritesFresh {
+			if spec != nil && spec.WritesFresh && !loopHavocKey(spec, w.key) {
 				freshOnly[w.key] = true
 				continue
 			}
@@ -1173,4 +1189,17 @@ func dedup(s []string) []string {
 		}
 	}
 	return out
+}
+
+// loopHavocKey: the heap map is listed in a "loop N havoc" clause (by its ghost or field name).
+func loopHavocKey(spec *LoopSpec, key string) bool {
+	if spec == nil {
+		return false
+	}
+	for _, h := range spec.Havoc {
+		if key == h || key == "G!"+h || strings.HasSuffix(key, "!"+h) {
+			return true
+		}
+	}
+	return false
 }
